@@ -8,6 +8,9 @@ use schemars::JsonSchema;
 use serde::de::{self, Deserializer, MapAccess, Visitor};
 use serde::{Deserialize, Serialize};
 
+#[cfg(feature = "verif-hooks")]
+use crate::verif_hooks::VecSet as HashSet;
+#[cfg(not(feature = "verif-hooks"))]
 use std::collections::HashSet;
 use std::fmt;
 
